@@ -207,10 +207,10 @@ Proof. intros (I1 & I2 & I3 & I4). inversion I3; subst. repeat split; assumption
 Lemma Inv_brk L c : Inv L c -> 0 <= brkD c.
 Proof. intros (_&_&_&N). exact N. Qed.
 
-(* the error of a for-else branch leaves through the loop like its normal end *)
-Lemma else_err_post L saved x c' e1 :
+(* an error or a control signal of a for-else branch leaves through the loop like its normal end *)
+Lemma else_err_post L saved s x c' e1 :
   0 <= saved -> abs c' = e1 -> Inv L c' ->
-  post L (SErr x) (set_brkD (Z.max (brkD (set_cerr (Some x) c')) saved) (set_cerr (Some x) c'))
+  post L s (set_brkD (Z.max (brkD (set_cerr (Some x) c')) saved) (set_cerr (Some x) c'))
        (set_ebrk (Z.max (e_brk e1) saved) e1).
 Proof.
   intros Hs A I'. split.
@@ -310,26 +310,27 @@ Section CLoop.
       + cbn [run_else] in Eq.
         destruct (top_with re els (set_ebrk b e) []) as [[o1 e1] s1] eqn:TE. rewrite <- A1 in TE.
         pose proof (else_with_rn flits lookup budget inc E c1 w C1) as EW.
-        destruct s1; try (inversion Eq; subst; cbn in D; discriminate D); try (inversion Eq; subst; contradiction).
-        * (* the else branch completes *)
-          destruct (Hels eq_refl c1 w (Inv_tail _ _ _ I1) Hw o1 e1 SNone TE I) as (c' & w' & eo & W & Bw & F & P & S).
-          cbn [sig_rel post] in S, P. subst eo. destruct P as [A I']. rewrite W in EW.
-          destruct EW as (c1' & EW & Q & C'). rewrite EW, C'.
-          inversion Eq; subst o e' s.
-          eexists _, w', None. split; [reflexivity|]. split; [rewrite Bw, Hb, app_assoc; reflexivity|].
-          split; [exact F|]. split; [|reflexivity]. cbn [post].
-          pose proof (ceq_Inv L _ _ Q I') as I''. pose proof (ceq_abs _ _ Q) as QA. destruct Q as (_&_&_&_&_&_&QB).
-          split.
-          -- change (abs (set_brkD (Z.max (brkD c1') saved) c1')) with (set_ebrk (Z.max (brkD c1') saved) (abs c1')).
-             rewrite QA, A. replace (brkD c1') with (e_brk e1) by (rewrite <- A, QB; reflexivity).
-             unfold set_ebrk. cbn [ev e_jq e_he e_ue e_qb e_brk]. f_equal. lia.
-          -- apply Inv_set_brkD; [lia|exact I''].
-        * (* an error in the else branch *)
-          cbn [sig_dom] in D. inversion Eq; subst o e' s.
-          destruct (Hels eq_refl c1 w (Inv_tail _ _ _ I1) Hw o1 e1 (SErr e0) TE D) as (c' & w' & eo & W & Bw & F & P & S).
-          cbn [sig_rel] in S. subst eo. destruct P as [A I']. rewrite W in EW. rewrite EW. cbn [cerr set_cerr].
-          eexists _, w', (Some e0). split; [reflexivity|]. split; [rewrite Bw, Hb, app_assoc; reflexivity|].
-          split; [exact F|]. split; [|reflexivity]. apply else_err_post; assumption.
+        destruct s1; try (inversion Eq; subst; contradiction);
+          [|(* an error or a control signal in the else branch: handed on through the loop *)
+            inversion Eq; subst o e' s;
+            match goal with D0 : sig_dom ?sx |- _ =>
+              destruct (Hels eq_refl c1 w (Inv_tail _ _ _ I1) Hw o1 e1 sx TE D0) as (c' & w' & eo & W & Bw & F & P & S) end;
+            cbn [sig_rel] in S; subst eo; destruct P as [A I']; rewrite W in EW; rewrite EW; cbn [cerr set_cerr];
+            eexists _, w', _; (split; [reflexivity|]); (split; [rewrite Bw, Hb, app_assoc; reflexivity|]);
+            (split; [exact F|]); (split; [|reflexivity]); apply else_err_post; assumption ..].
+        (* the else branch completes *)
+        destruct (Hels eq_refl c1 w (Inv_tail _ _ _ I1) Hw o1 e1 SNone TE I) as (c' & w' & eo & W & Bw & F & P & S).
+        cbn [sig_rel post] in S, P. subst eo. destruct P as [A I']. rewrite W in EW.
+        destruct EW as (c1' & EW & Q & C'). rewrite EW, C'.
+        inversion Eq; subst o e' s.
+        eexists _, w', None. split; [reflexivity|]. split; [rewrite Bw, Hb, app_assoc; reflexivity|].
+        split; [exact F|]. split; [|reflexivity]. cbn [post].
+        pose proof (ceq_Inv L _ _ Q I') as I''. pose proof (ceq_abs _ _ Q) as QA. destruct Q as (_&_&_&_&_&_&QB).
+        split.
+        * change (abs (set_brkD (Z.max (brkD c1') saved) c1')) with (set_ebrk (Z.max (brkD c1') saved) (abs c1')).
+          rewrite QA, A. replace (brkD c1') with (e_brk e1) by (rewrite <- A, QB; reflexivity).
+          unfold set_ebrk. cbn [ev e_jq e_he e_ue e_qb e_brk]. f_equal. lia.
+        * apply Inv_set_brkD; [lia|exact I''].
       + cbn [run_else] in Eq. inversion Eq; subst o e' s. rewrite C1.
         eexists _, w, None. split; [reflexivity|]. split; [exact Hb|]. split; [exact Hw|]. split; [|reflexivity].
         cbn [post]. split.
@@ -642,24 +643,26 @@ Section RLoop.
     pose proof (else_with_rn flits lookup budget inc E (set_cerr None c1) w eq_refl) as EW.
     assert (I1' : Inv L (set_cerr None c1)) by exact I1.
     change (abs c1) with (abs (set_cerr None c1)) in TE.
-    destruct s1 as [ | | | | |x| ]; try (inversion Eq; subst; cbn in D; discriminate D); try (inversion Eq; subst; contradiction).
-    - destruct (Hels eq_refl (set_cerr None c1) w I1' Hw o1 e1 SNone TE I) as (c' & w' & eo & W & Bw & F & P & S).
-      cbn [sig_rel post] in S, P. subst eo. destruct P as [A I']. rewrite W in EW.
-      destruct EW as (c1' & EW & Q & C'). rewrite EW, C'.
-      inversion Eq; subst o e' s.
-      eexists _, w', None. split; [reflexivity|]. split; [rewrite Bw, Hb, app_assoc; reflexivity|].
-      split; [exact F|]. split; [|reflexivity]. cbn [post].
-      pose proof (ceq_Inv L _ _ Q I') as I''. pose proof (ceq_abs _ _ Q) as QA. destruct Q as (_&_&_&_&_&_&QB).
-      split.
-      + change (abs (set_brkD (Z.max (brkD c1') saved) c1')) with (set_ebrk (Z.max (brkD c1') saved) (abs c1')).
-        rewrite QA, A. replace (brkD c1') with (e_brk e1) by (rewrite <- A, QB; reflexivity).
-        unfold set_ebrk. cbn [ev e_jq e_he e_ue e_qb e_brk]. f_equal. lia.
-      + apply Inv_set_brkD; [lia|exact I''].
-    - cbn [sig_dom] in D. inversion Eq; subst o e' s.
-      destruct (Hels eq_refl (set_cerr None c1) w I1' Hw o1 e1 (SErr x) TE D) as (c' & w' & eo & W & Bw & F & P & S).
-      cbn [sig_rel] in S. subst eo. destruct P as [A I']. rewrite W in EW. rewrite EW. cbn [cerr set_cerr].
-      eexists _, w', (Some x). split; [reflexivity|]. split; [rewrite Bw, Hb, app_assoc; reflexivity|].
-      split; [exact F|]. split; [|reflexivity]. apply else_err_post; assumption.
+    destruct s1; try (inversion Eq; subst; contradiction);
+      [|(* an error or a control signal in the else branch: handed on through the loop *)
+        inversion Eq; subst o e' s;
+        match goal with D0 : sig_dom ?sx |- _ =>
+          destruct (Hels eq_refl (set_cerr None c1) w I1' Hw o1 e1 sx TE D0) as (c' & w' & eo & W & Bw & F & P & S) end;
+        cbn [sig_rel] in S; subst eo; destruct P as [A I']; rewrite W in EW; rewrite EW; cbn [cerr set_cerr];
+        eexists _, w', _; (split; [reflexivity|]); (split; [rewrite Bw, Hb, app_assoc; reflexivity|]);
+        (split; [exact F|]); (split; [|reflexivity]); apply else_err_post; assumption ..].
+    destruct (Hels eq_refl (set_cerr None c1) w I1' Hw o1 e1 SNone TE I) as (c' & w' & eo & W & Bw & F & P & S).
+    cbn [sig_rel post] in S, P. subst eo. destruct P as [A I']. rewrite W in EW.
+    destruct EW as (c1' & EW & Q & C'). rewrite EW, C'.
+    inversion Eq; subst o e' s.
+    eexists _, w', None. split; [reflexivity|]. split; [rewrite Bw, Hb, app_assoc; reflexivity|].
+    split; [exact F|]. split; [|reflexivity]. cbn [post].
+    pose proof (ceq_Inv L _ _ Q I') as I''. pose proof (ceq_abs _ _ Q) as QA. destruct Q as (_&_&_&_&_&_&QB).
+    split.
+    + change (abs (set_brkD (Z.max (brkD c1') saved) c1')) with (set_ebrk (Z.max (brkD c1') saved) (abs c1')).
+      rewrite QA, A. replace (brkD c1') with (e_brk e1) by (rewrite <- A, QB; reflexivity).
+      unfold set_ebrk. cbn [ev e_jq e_he e_ue e_qb e_brk]. f_equal. lia.
+    + apply Inv_set_brkD; [lia|exact I''].
   Qed.
 
   Lemma rloop_each_ok : forall elems c w calls trips acc base,
